@@ -33,12 +33,10 @@ from funsor.terms import Cat, Slice, Funsor
 RTOL = 1e-9
 # Regions of open findings kept out of the clean stream (each has a dedicated stream below).
 # Remove an entry once the defect is fixed in /repo: the clean stream then covers the region.
-AVOID = {"cat-partname": "KF-gaussian-cat-partname"}
+AVOID = {}     # e.g. {"cat-partname": "KF-gaussian-cat-partname"}; all regions found so far are fixed in /repo
 WHAT = {"cat-partname": "joint.eager_cat_homogeneous with part_name != name appends the concatenated input after all "
                         "other inputs although the data has it on axis 0: batch dims transposed (wrong value) or "
                         "AssertionError, e.g. Cat('c', (g1, g2), 'i') with another batch input j"}
-DECLINE_ERRORS = (AssertionError, NotImplementedError, ValueError, KeyError, AttributeError, TypeError,
-                  StopIteration, IndexError, RuntimeError)
 
 
 class Declined(Exception):
